@@ -67,7 +67,7 @@ def nrel(a, b):
 
 
 COLLECT = bool(os.environ.get('C43_COLLECT'))     # triage mode: record every discrepancy, never raise
-FINDINGS = bool(os.environ.get('C43_FINDINGS'))   # include the sub-domains excluded because of reported findings
+FINDINGS = bool(os.environ.get('C43_FINDINGS'))   # developer option only: run the generators without the exclusions below
 COLLECTED = {}
 
 
@@ -654,7 +654,9 @@ ASSUMPTIONS = [
     'capsule-capsule (1e-6 regulariser) are documented/known to differ from the C engine: a state whose contact set or contact '
     'geometry differs on such a pair is compared only on smooth quantities',
     'states within 1e-9 of a contact activation boundary or with cond(M)>1e8 are skipped (counted)',
-    'sub-domains where MJX deviates from this tree\'s C engine (reported as candidate findings, re-enabled with C43_FINDINGS=1): '
+    'sub-domains where MJX deviates from this tree\'s C engine are excluded from the random generators by construction (counted as '
+    'discards / state statuses) and each deviation is probed on its minimal input on every run (vf/mjx_findings.py, reported as '
+    'KNOWN-FINDING F1 F2 F3 F4 F5 F11 F12 F13 F15 F16 F17 F23 F26 F29): '
     'Jdot*v term of connect/weld rows, elliptic cone without frictional contact slot (TypeError), acc-stage sensors without '
     'constraint rows, spring/damper disable flags, actearly, implicitfast with free bodies / damped tendons / clamped actuators']
 
@@ -662,6 +664,11 @@ ASSUMPTIONS = [
 def shard_main(ck, shard, nshards):
   mjxload.load()           # the wheel must be loaded before the tree library (see vf/mjxload.py)
   lib = ck.lib('rel')
+  nshards -= 1                       # the last worker runs the known-finding probes (vf/mjx_findings.py)
+  if shard == nshards:
+    from vf import mjx_findings
+    mjx_findings.run_probes(ck, mjx_findings.BY_PROPERTY['C43'])
+    return
   R = Runner(ck, lib)
   if shard == 0:
     gate(ck, lib)
@@ -740,7 +747,7 @@ def main(ck):
   ck.rule = RULE
   ck.assumptions = ASSUMPTIONS
   nshards = int(os.environ.get('C43_SHARDS', 3 if ck.quick else 6))
-  extra = mjxshard.run(ck, 'c43', nshards, timeout=(1800 if ck.quick else 5400))
+  extra = mjxshard.run(ck, 'c43', nshards + 1, timeout=(1800 if ck.quick else 5400))   # + 1 probe worker
   worst = mjxshard.merge_max(extra.get('worst', []))
   ck.extra['worst_rel_err'] = {k: float('%.3g' % v) for k, v in sorted(worst.items())}
   ck.extra['state_status'] = mjxshard.merge_sum(extra.get('status', []))
@@ -765,5 +772,7 @@ collisions are not covered (trimesh unavailable). Box/ellipsoid/cylinder narrow-
 those pairs only agreement of matched contacts is used and mismatching states are compared on smooth quantities only; states with a
 capsule-capsule contact are compared downstream with a loose 5e-2 tolerance. Only the Newton solver and dense mass matrix / Jacobian
 are exercised (CG, jacobian=sparse not covered). Sub-domains in which this tree's MJX was found to deviate from this tree's C engine
-are excluded and listed in `assumptions` (reproducers: python -m vf.mjx_findings); C43_FINDINGS=1 re-enables them. No shrinking (each
+are excluded from the generators, listed in `assumptions`, and probed on every run by an extra worker (vf/mjx_findings.py: a deviating
+probe is reported through the known-findings mechanism, a probe that agrees prints nothing). F27 (Newton solver NaN with tolerance=0 at an
+exactly converged point; the generators use tolerance=1e-15) has no standalone reproducer and is only avoided. No shrinking (each
 model costs a jit compilation of 10-100 s); the run is time-budgeted and sharded over worker processes. Sampled, not exhaustive.'''
